@@ -7,9 +7,9 @@ from geom import fd_glyphs_json
 from ufo import build, rat
 
 ID = "C01"
-PROOF_FILES = ["Geom", "Reverse", "Render", "RenderExact", "GoodCert", "C01", "C01Skip", "C01Codec"]
+PROOF_FILES = ["Geom", "Reverse", "Render", "RenderExact", "GoodCert", "C01", "C01Skip", "C01Codec", "TotalGeom", "TotalFilters", "TotalFilters2", "Total"]
 THEOREM = ("Ufo2ft.C01.C01_outline / C01_round / C01_advance / C01_codec_roundtrip / C01_codec_no_drift / C01_codec_integral / "
-           "C01_codec_charstring / C01_codec_cff2 / C01_codec_glyph (+ shared Geom/Reverse/Render theorems)")
+           "C01_codec_charstring / C01_codec_cff2 / C01_codec_glyph (+ shared Geom/Reverse/Render theorems); TOTALITY (Props/Total*.lean): C01_preprocess_ok / C01_outline_total / C01_outline_skip_total - on every well-formed closed glyph set (wfCert) the model's pre-processing returns a result and the outline theorem holds of it, no '= .ok' hypothesis")
 N = {"quick": 250, "thorough": 5000}
 RULE = ("random fonts: closed contours of line / cubic / quadratic segments on a 1/8 grid with 30% half-integer and 25% negative "
         "coordinates (quadratics only with roundTolerance None/0.5 and only when no elevated control point is within 1e-6 of a rounding "
